@@ -471,9 +471,10 @@ class DataFile:
       return
     LOGGER.debug("  Time out: %s", tco)
 
-    # create a new subtitle if SN changes and we are not in cumulative mode
+    # create a new subtitle if SN changes and we are not in cumulative mode, or if
+    # there is no subtitle to continue (e.g. the first block of a cumulative set was dropped)
 
-    if tti.SN != self.last_sn and tti.CS in (0x00, 0x01):
+    if (tti.SN != self.last_sn and tti.CS in (0x00, 0x01)) or self.cur_p_element is None:
 
       self.last_sn =  tti.SN
 
